@@ -872,10 +872,12 @@ func registerElection(e *Engine) {
 		return in.eng.namedType("k8s.io/client-go/tools/leaderelection/resourcelock", "LeaderElectionRecord")
 	}
 	// one acquire pass of the elector (tryAcquireOrRenew without the lease clock: the harness lets
-	// the old lease run out): Get; the record found becomes the *observed* record (from then on
+	// the old lease run out, and natively delays the elector so that the callback runs before the
+	// first renewal): Get; the record found becomes the *observed* record (from then on
 	// IsLeader() compares its holder with the lock's identity); Create if the record is missing,
 	// else Update; on success the written record is the observed one and OnStartedLeading(ctx) is
-	// called. The steps are visible operations; the renew loop is not modelled.
+	// called, followed by the renew loop's immediate first pass (Get + Update). The steps are visible
+	// operations; later renewals are not modelled.
 	pass := func(in *interp, fr *frame, lec structure, observe func(rec value)) {
 		lock := lec[0].(iface)
 		cb := lec[4].(structure)
@@ -903,6 +905,12 @@ func registerElection(e *Engine) {
 			in.sch.yield("elector:acquired")
 			ctxv, _ := in.newCtx(nil)
 			in.call(fr, 0, cb[0], []value{ctxv})
+			// the renew loop starts with an immediate pass (wait.PollImmediateUntil): one more Get
+			// and Update by the new leader right after it has acquired the lock
+			in.sch.yield("elector:renew")
+			if again := in.invoke(fr, lock, "Get").(tuple); in.isNil(again[1]) {
+				in.invoke(fr, lock, "Update", rec)
+			}
 		}
 	}
 	e.reg(lePkg+".RunOrDie", func(in *interp, fr *frame, a []value) value {
